@@ -19,7 +19,8 @@ ERR = bl.ERRNO
 class Scenario:
     def __init__(self, name, tree, lock=None, structured=False, use_cache=None, base=0, pad=0, crlf=False,
                  unicode_prelude=False, bad=(), extra_files=None, names=None, tmp_on_other_fs=False, maxid=None,
-                 config_class="ok", structured_key="explicit", extensions=None, opaque=None, tmp_leftovers=False, pad_mode="spread", tmp_missing=False, env=None, head_style="plain"):
+                 config_class="ok", structured_key="explicit", extensions=None, opaque=None, tmp_leftovers=False, pad_mode="spread", tmp_missing=False, env=None, head_style="plain", ci_env=False, stdout_to=None,
+                 literal_prelude=False):
         self.name = name
         if opaque is None:
             opaque = sum(len(v) for v in tree.values()) > 300
@@ -28,7 +29,8 @@ class Scenario:
         self.kw = dict(lock=lock, structured=structured, use_cache=use_cache, base=base, pad=pad, crlf=crlf,
                        unicode_prelude=unicode_prelude, bad=bad, extra_files=extra_files,
                        tmp_on_other_fs=tmp_on_other_fs, maxid=maxid, config_class=config_class,
-                       structured_key=structured_key, extensions=extensions, opaque=opaque, tmp_leftovers=tmp_leftovers, pad_mode=pad_mode, tmp_missing=tmp_missing, env=env, head_style=head_style)
+                       structured_key=structured_key, extensions=extensions, opaque=opaque, tmp_leftovers=tmp_leftovers, pad_mode=pad_mode, tmp_missing=tmp_missing, env=env, head_style=head_style, ci_env=ci_env, stdout_to=stdout_to,
+                       literal_prelude=literal_prelude)
 
     def make(self, binary, label=""):
         return history.History(binary, self.names, self.tree, label=self.name + label, **self.kw)
@@ -166,6 +168,9 @@ def exec_job(job):
                 DEVFN[st[1]](h, st[2] if len(st) > 2 else 0)
             elif st[0] == "lock":
                 h.dev_set_lock(st[1])
+            elif st[0] == "sleep":
+                import time as _t
+                _t.sleep(st[1])
             elif st[0] == "model":
                 for ms in st[1]:
                     t = ms["t"]
@@ -390,6 +395,7 @@ def planned_runs(binary, scen, steps_list, batch, verdict, sigbase=None, label="
     for steps in steps_list:
         steps = [tuple(s) for s in steps]
         plans = [s[1] for s in steps if s[0] in ("edit", "check") and len(s) > 1 and s[1]]
+        steps = [s for s in steps]
         sig = {"mode": next((s[0] for s in steps if s[0] in ("edit", "check")), "history"),
                "fault": "plan" if plans else "none", "plan": ";".join(plans), "structured": bool(scen.kw["structured"])}
         if sigbase:
